@@ -3479,6 +3479,12 @@ func (ts *TokenStore) authRenew(ctx context.Context, req *logical.Request, d *fr
 
 	req.Auth.Period = role.TokenPeriod
 	req.Auth.ExplicitMaxTTL = role.TokenExplicitMaxTTL
+	// The token may have been created with an explicit max TTL of its own
+	// below the role's (or with one when the role has none); it keeps
+	// binding the token.
+	if te.ExplicitMaxTTL > 0 && (req.Auth.ExplicitMaxTTL == 0 || te.ExplicitMaxTTL < req.Auth.ExplicitMaxTTL) {
+		req.Auth.ExplicitMaxTTL = te.ExplicitMaxTTL
+	}
 	return &logical.Response{Auth: req.Auth}, nil
 }
 
